@@ -267,7 +267,10 @@ class CoreGen:
                 ty = r.choice(["tiny", "utiny", "short", "ushort", "char", "int", "uint"])
             x = self.fresh("v")
             const = r.chance(8)
-            static = (not glob) and r.chance(5) and "no_static" not in self.features
+            static = (not glob) and r.chance(25 if self.features.get("calls") else 5) and "no_static" not in self.features
+            if static and "static_aliases_caller_local" in self.gates:
+                self.stn = getattr(self, "stn", 0) + 1
+                x = "st%d" % self.stn      # program-wide unique: never the name of some caller's local
             if static and ty.startswith("u") and "static_unsigned" in self.gates:
                 ty = ty[1:]
             e = self.fit(sc, ty, 0 if glob else 2, pure=static or glob)
